@@ -94,6 +94,41 @@ mut("c03-second-search-route-shadowed", ["C03"], "mux.go",
     "\tfor _, r := range m.routes {\n\t\tif !r.match(req) {\n\t\t\tcontinue\n\t\t}",
     "\tfor i, r := range m.routes {\n\t\tif !r.match(req) || (i == 1 && r.op() == searchRouteOperation && len(m.routes) > 2) {\n\t\t\tcontinue\n\t\t}")
 
+# ---- C19 -------------------------------------------------------------------
+mut("c19-hasprefix", ["C19"], "testdirectory/directory.go", "if u.DN == m.UserName {", "if strings.HasPrefix(u.DN, m.UserName) {")
+mut("c19-equalfold", ["C19"], "testdirectory/directory.go", "if u.DN == m.UserName {", "if strings.EqualFold(u.DN, m.UserName) {")
+mut("c19-contains", ["C19"], "testdirectory/directory.go", "if u.DN == m.UserName {", "if strings.Contains(m.UserName, u.DN) {")
+mut("c19-any-password-value", ["C19"], "testdirectory/directory.go",
+    "if len(values) > 0 && string(m.Password) == values[0] {", "if len(values) > 0 && slices.Contains(values, string(m.Password)) {")
+mut("c19-anon-regardless-of-flag", ["C19"], "testdirectory/directory.go",
+    "if m.Password == \"\" && d.allowAnonymousBind {", "if m.Password == \"\" {")
+mut("c19-default-success-when-no-users", ["C19"], "testdirectory/directory.go",
+    "\t\t// bind failed...\n", "\t\tif len(d.users) == 0 {\n\t\t\tresp.SetResultCode(gldap.ResultSuccess)\n\t\t}\n")
+mut("c19-first-user-only", ["C19"], "testdirectory/directory.go",
+    "\t\t\t\t\treturn\n\t\t\t\t}\n\t\t\t}\n\t\t}\n\t\t// bind failed...", "\t\t\t\t\treturn\n\t\t\t\t}\n\t\t\t\tbreak\n\t\t\t}\n\t\t}\n\t\t// bind failed...")
+mut("c19-defaults-anon-ignored", ["C19"], "testdirectory/directory.go",
+    "allowAnonymousBind: opts.withDefaults.AllowAnonymousBind,", "allowAnonymousBind: false,")
+
+# ---- C20 -------------------------------------------------------------------
+mut("c20-add-no-duplicate-check", ["C20"], "testdirectory/directory.go",
+    "if found, _, _ := find(d.t, fmt.Sprintf(\"(%s)\", m.DN), d.users); found {", "if found, _, _ := find(d.t, fmt.Sprintf(\"(%s)\", m.DN), d.users); found && len(d.users) > 3 {")
+mut("c20-delete-wrong-index", ["C20"], "testdirectory/directory.go",
+    "d.users = append(d.users[:foundAt[0]], d.users[foundAt[0]+1:]...)", "d.users = d.users[:len(d.users)-1]")
+mut("c20-add-value-replaces", ["C20"], "testdirectory/directory.go",
+    "foundAttr.AddValue(chg.Modification.Vals...)", "foundAttr.Values, foundAttr.ByteValues = nil, nil\n\t\t\t\t\tfoundAttr.AddValue(chg.Modification.Vals...)")
+mut("c20-replace-local-again", ["C20"], "testdirectory/directory.go",
+    "e.Attributes[foundAt] = gldap.NewEntryAttribute(chg.Modification.Type, vals)", "foundAttr = gldap.NewEntryAttribute(chg.Modification.Type, vals)\n\t\t\t\t\t_ = foundAttr")
+mut("c20-delete-attr-removes-first", ["C20"], "testdirectory/directory.go",
+    "copy(e.Attributes[foundAt:], e.Attributes[foundAt+1:])", "foundAt = 0\n\t\t\t\t\tcopy(e.Attributes[foundAt:], e.Attributes[foundAt+1:])")
+mut("c20-modify-missing-returns-success", ["C20"], "testdirectory/directory.go",
+    "\t\tif len(entries) == 0 {\n\t\t\treturn\n\t\t}\n\t\tif len(entries) > 1 {", "\t\tif len(entries) == 0 {\n\t\t\tres.SetResultCode(gldap.ResultSuccess)\n\t\t\treturn\n\t\t}\n\t\tif len(entries) > 1 {")
+mut("c20-add-drops-attrs-beyond-two", ["C20"], "testdirectory/directory.go",
+    "\t\t\tattrs[a.Type] = a.Vals\n", "\t\t\tif len(attrs) < 2 {\n\t\t\t\tattrs[a.Type] = a.Vals\n\t\t\t}\n")
+mut("c20-delete-group-leaves-entry", ["C20"], "testdirectory/directory.go",
+    "d.groups = append(d.groups[:foundAt[0]], d.groups[foundAt[0]+1:]...)", "_ = foundAt")
+mut("c20-second-change-ignored", ["C20"], "testdirectory/directory.go",
+    "\t\tfor _, chg := range m.Changes {\n\t\t\t// find specific attr", "\t\tfor ci, chg := range m.Changes {\n\t\t\tif ci > 1 {\n\t\t\t\tbreak\n\t\t\t}\n\t\t\t// find specific attr")
+
 # ---- C04 -------------------------------------------------------------------
 mut("c04-msgid-from-request-counter", ["C04"], "request.go",
     "resp := &SearchResponseDone{\n\t\tbaseResponse: &baseResponse{\n\t\t\tmessageID: r.message.GetID(),",
